@@ -220,6 +220,35 @@ func (fc *FnCtx) headerVars(h *ssa.BasicBlock, phiVals map[*ssa.Phi]string) map[
 		}
 		m[phi.Name()] = v
 	}
+	// the index of the (innermost) enclosing range loop is visible as `outerindex`
+	own := fc.loopID(h)
+	best := -1
+	for h2 := range fc.headers {
+		if h2 == h || h2.Index > h.Index || h2.Index < best {
+			continue
+		}
+		encl := false
+		for _, l := range fc.loopsOf[h] {
+			if l == fc.loopID(h2) && l != own {
+				encl = true
+			}
+		}
+		if !encl {
+			continue
+		}
+		for _, ins := range h2.Instrs {
+			phi, ok := ins.(*ssa.Phi)
+			if !ok {
+				break
+			}
+			if phi.Comment == "rangeindex" {
+				if v, ok := fc.vals[phi]; ok {
+					m["outerindex"] = v
+					best = h2.Index
+				}
+			}
+		}
+	}
 	return m
 }
 
